@@ -78,6 +78,8 @@ def scenarios():
                   "argv": ["-i"] + (["--nobackup"] if nb else []) + ["a.md", "b.md", "c.md"]})
     S.append({"name": "inplace-existing-orig", "files": ["a.md", "b.md"], "stale_orig": ["a.md", "b.md"], "argv": ["-i", "a.md", "b.md"]})
     S.append({"name": "auto", "files": ["a.md", "b.md"], "argv": ["--auto", "a.md", "b.md"]})
+    # the same file named twice: the backup must still hold the ORIGINAL content
+    S.append({"name": "inplace-same-file-twice", "files": ["a.md", "b.md"], "argv": ["-i", "a.md", "b.md", "./a.md"]})
     S.append({"name": "inplace-symlink", "files": ["real.md"], "symlink": ("link.md", "real.md"), "argv": ["-i", "link.md"], "content": {"real.md": OLD["a.md"]}})
     S.append({"name": "stdin-to-new-output", "files": [], "stdin": OLD["a.md"], "argv": ["-o", "out.md", "-"], "outputs": ["out.md"]})
     S.append({"name": "stdin-to-existing-output", "files": ["b.md"], "stdin": OLD["a.md"], "argv": ["-o", "b.md", "-"], "outputs": ["b.md"], "output_from_stdin": True})
@@ -103,7 +105,7 @@ class C14(Prop):
     id = "C14"
     once_kinds = ("enumerate", "strace")
     level = "fault_enumeration"
-    rule = ("cases: 25 scenarios x {fault at every file-system audit event, crash (fork + _exit) at every file-system audit event, "
+    rule = ("cases: 26 scenarios x {fault at every file-system audit event, crash (fork + _exit) at every file-system audit event, "
             "crash at every executed line inside flowmark/reformat_api.py + strif + pathlib during the run}; each injection "
             "point is one evaluation and is followed by an end-state check of the whole scratch directory. Non-trivial: the "
             "injection point was reached (the run really died / failed there); distinct by (scenario, kind, k). The point "
